@@ -46,6 +46,9 @@ def corpus_wx():
     burst = [{"id": k, "at_ms": 40, "verdict": "err", "prio": "normal"} for k in range(1, 5)]
     out.append({"throttle_ms": 0, "events": burst, "error_behaviours": {"1": "elevate"}, "handler": {}, "tail_ms": 1200, "errors_cap": 1, "error_slow_ms": 200})
     out.append({"throttle_ms": 0, "events": burst, "error_behaviours": {"2": "critical"}, "handler": {}, "tail_ms": 1200, "errors_cap": 1, "error_slow_ms": 150})
+    # several errors queued while a slow handler works on the first; the one in the middle is elevated
+    out.append({"throttle_ms": 0, "events": burst, "error_behaviours": {"2": "elevate"}, "handler": {}, "tail_ms": 1500, "errors_cap": 64, "error_slow_ms": 120})
+    out.append({"throttle_ms": 0, "events": burst, "error_behaviours": {"3": "critical"}, "handler": {}, "tail_ms": 1500, "errors_cap": 64, "error_slow_ms": 120})
     # the same on a current-thread runtime
     for cs_ in [json.loads(json.dumps(x)) for x in out[:2]]:
         cs_["rt"] = "current"
